@@ -118,6 +118,9 @@ BREAKING = [
   "            Ok(parameters) => parameters,\n            Err(e) => {", "            Ok(parameters) => parameters,\n            Err(e) if e.is_eof() && e.column() > 20 => panic!(\"truncated parameter file : {}\", e),\n            Err(e) => {"),
  ("C20-a-dumped-as-f32", "C20", "src/setsketcher.rs",
   "        to_writer(&mut writer, &self).unwrap();", "        let mut rounded = *self;\n        rounded.a = self.a as f32 as f64;\n        to_writer(&mut writer, &rounded).unwrap();"),
+ ("C20-shared-serialisation-buffer-unlocked-between-fill-and-write", "C20", "src/setsketcher.rs",
+  "        let mut writer = BufWriter::new(fileres.unwrap());\n        to_writer(&mut writer, &self).unwrap();",
+  "        static BUF: std::sync::Mutex<Vec<u8>> = std::sync::Mutex::new(Vec::new());\n        {\n            let mut b = BUF.lock().unwrap();\n            b.clear();\n            to_writer(&mut *b, &self).unwrap();\n        }\n        let mut writer = BufWriter::new(fileres.unwrap());\n        std::io::Write::write_all(&mut writer, &BUF.lock().unwrap()).unwrap();"),
  ("C20-default-on-parse-error", "C20", "src/setsketcher.rs",
   "                return Err(format!(\n                    \"SetSketchParams reload_json could not parse file : {}\",\n                    e\n                ));",
   "                if e.is_eof() {\n                    return Ok(SetSketchParams::default());\n                }\n                return Err(format!(\n                    \"SetSketchParams reload_json could not parse file : {}\",\n                    e\n                ));"),
